@@ -79,7 +79,7 @@ def run(tier):
     prop = "C20"
     t0 = time.monotonic()
     base = core.base_seed()
-    wall = budget(tier, 70)
+    wall = budget(tier, 90)
     scratch = core.Scratch(NW)
     report = runner.Report(prop)
     agg = Agg()
@@ -99,6 +99,8 @@ def run(tier):
 
             def a_jobs():
                 yield {"cmd": "custom", "method": "foreign_strength", "args": {}, "id": "foreign_strength", "timeout": 900, "must": True}
+                for stt in ("valid", "missing", "stale_benign"):
+                    yield {"cmd": "custom", "method": "subclass_cell", "args": {"state": stt}, "id": "subclass:" + stt, "timeout": 900, "must": True}
                 for part in range(nparts):
                     yield {"cmd": "custom", "method": "sweep", "args": {"part": part, "nparts": nparts},
                            "id": "sweep%d" % part, "timeout": 900, "must": True}
@@ -127,8 +129,11 @@ def run(tier):
                         report.harness_errors.append("foreign-table fault is too weak to be observable: %s" % foreign["strength"])
                     return
                 if job["cmd"] == "custom":
-                    sweep_info["cells"] += res.get("cells", 0)
-                    sweep_info["total_cells"] = res.get("total_cells", 0)
+                    if str(job.get("id", "")).startswith("subclass:"):
+                        sweep_info["subclass_cells"] = sweep_info.get("subclass_cells", 0) + 1
+                    else:
+                        sweep_info["cells"] += res.get("cells", 0)
+                        sweep_info["total_cells"] = res.get("total_cells", 0)
                     agg.evals += res.get("cells", 0)
                     if res.get("foreign"):
                         foreign.update(res["foreign"])
@@ -173,11 +178,12 @@ def run(tier):
             "samples": agg.samples or ["(none)"],
             "static_clause": static_info,
             "sweep": dict(sweep_info, complete=sweep_complete,
-                          axes="state {valid, missing, stale_benign, stale_foreign, old_version, as_found} x {writable, unwritable(EACCES)} x 4 workload chunks, plus each state once under python -O, plus {missing, stale_benign, stale_foreign, old_version} x kill -9 at {start of regeneration, just before the table write} followed by a restart on what was left"),
+                          axes="state {valid, missing, stale_benign, stale_foreign, old_version, old_version_foreign, as_found} x {writable, unwritable(EACCES)} x 4 workload chunks, plus each state once under python -O, plus {missing, stale_benign, stale_foreign, old_version} x kill -9 at {start of regeneration, just before the table write} followed by a restart on what was left"),
             "foreign_table": foreign,
             "faults_fired": {k: v for k, v in sorted(agg.stats.items()) if k.startswith(("state_", "write_fault", "interp_", "crash_"))},
             "probes": {k: agg.stats[k] for k in ("incarnations", "items_parsed", "outcomes_compared", "cache_rewritten",
-                                                 "started_with_invalid_cache", "cache_repaired")},
+                                                 "started_with_invalid_cache", "cache_repaired", "subclass_probes", "subclass_items_differing_from_base",
+                                                 "subclass_unavailable")},
             "transitions_seen": len(cells),
             "runs_per_hour": int(agg.evals / max(wall_s, 1e-6) * 3600),
             "seeds": {"base": base, "first": base * 1000003, "count": len(agg.digests)},
